@@ -1,6 +1,6 @@
 (* C46 — Ignored tables stay out of commits and clean removes only untracked tables.  Property theorems only. *)
 From Coq Require Import NArith List Bool.
-From Dolt Require Import Base.Str C46.Model C46.Spec C46.Corr C46.Proofs.
+From Dolt Require Import Base.Str C46.Model C46.Spec C46.Corr C46.Proofs C46.ProofsMore.
 Import ListNotations.
 Local Open Scope N_scope.
 
@@ -51,3 +51,18 @@ Theorem C46_stage_all_every_other_change_refuted :
   exists ps pre, let '(e, post) := stage_all ps pre in e = 0 /\ stage_ok ps pre e post = false.
 Proof. exact stage_all_every_other_change_refuted. Qed.
 Print Assumptions C46_stage_all_every_other_change_refuted.
+
+Theorem C46_decision_is_most_specific_wins_partial2 :
+  forall ps n,
+    NoDup (matching ps n true) -> NoDup (matching ps n false) ->
+    (forall t f, In t (matching ps n true) -> In f (matching ps n false) ->
+                 (no_q t || plain f) && (no_q f || plain t) = true) ->
+    d_code (is_ignored ps n) = spec_decision ps n.
+Proof. exact decision_is_spec_partial2. Qed.
+Print Assumptions C46_decision_is_most_specific_wins_partial2.
+
+Theorem C46_more_specific_sound :
+  forall a b, at_least_as_specific_b a b = true -> forallb not_nl a = true ->
+    forall n, matches a n -> matches b n.
+Proof. exact more_specific_sound. Qed.
+Print Assumptions C46_more_specific_sound.
